@@ -693,7 +693,7 @@ class VpdAta(VpdBase):
                                "sat_product_identification", "sat_product_rev_lvl")}
         e["signature"] = dict(v["_sig"])
         e["identify"] = {"serial_number": v["_serial"], "firmware_rev": v["_fw"], "model_number": v["_model"],
-                         "general_config": {"ata_device": v["_word0"] >> 15}}
+                         "general_config": {"ata_device": v["_word0"] >> 15, "respose_incomplete": (v["_word0"] >> 2) & 1}}  # ACS: word 0 bit 15, bit 2
         return e
 
 
@@ -1384,7 +1384,6 @@ FORMATS = {f.name: f for f in all_formats()}
 REFERENCE_GAPS = [
     "SOP TransportID routing-id position (library's position used; only size/protocol nibble checked)",
     "fields of mode pages other than 02h, 0Ah, 0Ah/01h, 1Dh (the library has no tables for them; such pages are generated and must be stepped over)",
-    "ATA Information VPD page: of IDENTIFY word 0 only bit 15 (ATA device) is referenced; the library's 'respose_incomplete' mask is not judged",
 ]
 
 
